@@ -173,23 +173,46 @@ theorem C15_order_rule_kwonly_exempt (had : Bool) (l : List Attr) :
     orderLoop had (l.filter Attr.positional) = orderLoop had l := orderLoop_filter had l
 
 /-- **C15_order_rule_kwonly_exempt** (2): under class-level `kw_only=True` the rule never applies, whatever
-    the fields, the inherited attributes and the transformer. -/
-theorem C15_order_rule_kwonly_class (c : Case) (h : c.kwOnly = true) :
+    the fields and the inherited attributes — *provided the transformer does not clear `kw_only`* (it may do
+    anything else: reorder, drop, add one attribute, edit defaults / init / hooks). -/
+theorem C15_order_rule_kwonly_class (c : Case) (h : c.kwOnly = true) (ht : c.transformer.keepsKwOnly = true) :
     Rule.applies c .mandatoryAfterDefault = false := by
   cases hm : Rule.applies c .mandatoryAfterDefault with
   | false => rfl
   | true =>
     exfalso
     simp only [Rule.applies] at hm
-    obtain ⟨a, ha, hp, hd⟩ := mad_exists_dflt hm
-    unfold Case.attrs effAttrs at ha
-    rcases applyTr_mem _ _ a ha with rfl | ⟨b, hb, hkw⟩
-    · simp [addedAttr] at hd
-    · have hbk : b.kwOnly = true := by
-        simp only [kwAll, h, if_true, List.mem_append, List.mem_map] at hb
-        rcases hb with ⟨x, _, rfl⟩ | ⟨x, _, rfl⟩ <;> rfl
-      have := hkw hbk
-      simp [Attr.positional, this] at hp
+    obtain ⟨a, ha, b, hb, hap, had, hbp, hbd⟩ := mad_exists_two hm
+    unfold Case.attrs effAttrs at ha hb
+    have fromGiven : ∀ x : Attr, (∃ y ∈ kwAll c.kwOnly
+        (c.baseAttrs.filter fun b => !((ownSource c c.annotationMode).map Field.toAttr).any fun a => a.name == b.name)
+          ++ kwAll c.kwOnly ((ownSource c c.annotationMode).map Field.toAttr),
+        (y.kwOnly = true → x.kwOnly = true)) → x.positional = false := by
+      rintro x ⟨y, hy, hkw⟩
+      have hyk : y.kwOnly = true := by
+        simp only [kwAll, h, if_true, List.mem_append, List.mem_map] at hy
+        rcases hy with ⟨z, _, rfl⟩ | ⟨z, _, rfl⟩ <;> rfl
+      simp [Attr.positional, hkw hyk]
+    rcases applyTr_mem _ ht _ a ha with (⟨_, rfl⟩ | ⟨hadd, rfl⟩ | ⟨_, rfl⟩) | hg
+    · simp [addedAttr] at had
+    · rcases applyTr_mem _ ht _ b hb with (⟨hadd', rfl⟩ | ⟨_, rfl⟩ | ⟨_, rfl⟩) | hg
+      · rw [hadd] at hadd'; cases hadd'
+      · simp [addedAttr] at hbd
+      · simp [addedAttr, Attr.positional] at hbp
+      · rw [fromGiven b hg] at hbp; cases hbp
+    · simp [addedAttr, Attr.positional] at hap
+    · rw [fromGiven a hg] at hap; cases hap
+
+/-- **C15_transformer_output_is_checked**: the ordering rule is evaluated on what the transformer *returned*.
+    A transformer that turns the fields of a keyword-only class back into positional ones re-introduces the
+    contradiction, and it is rejected with ValueError — own fields, inherited fields, every front-end. -/
+theorem C15_transformer_output_is_checked (c : Case) (t : Tr) (l : List Attr)
+    (hl : l = applyTr t (kwAll c.kwOnly
+      (c.baseAttrs.filter fun b => !((ownSource c c.annotationMode).map Field.toAttr).any fun a => a.name == b.name)
+        ++ kwAll c.kwOnly ((ownSource c c.annotationMode).map Field.toAttr)))
+    (ht : c.transformer = t) (hm : mandatoryAfterDefault l = true) : defError c ≠ none := by
+  apply C15_complete c .mandatoryAfterDefault
+  simp only [Rule.applies, Case.attrs, effAttrs, ht, ← hl, hm]
 
 /-! ### fields are checked one after the other -/
 
@@ -306,7 +329,7 @@ def plain : Case :=
   { api := .attrS, these := false, autoAttribs := .unset, annReversed := false, slots := .unset,
     frozen := false, kwOnly := false, cacheHash := false, autoExc := .unset, isBaseExc := false,
     autoDetect := .unset, cmp := .none, eq := .none, order := .unset, hash := .none, unsafeHash := .none,
-    init := .none, repr := .none, str := false, onSetattr := .none, transformer := .none,
+    init := .none, repr := .none, str := false, onSetattr := .none, transformer := Tr.id,
     ownSetattr := false, ownEq := false, ownHash := false, ownInit := false, ownRepr := false,
     baseFrozen := false, baseAttrs := [], fields := [] }
 
@@ -332,8 +355,8 @@ example : defError { plain with api := .define, frozen := true, cacheHash := tru
 example : defError { plain with fields := [{ (fld "a") with dflt := true }, fld "b"] } = some .valueError := by
   decide
 example : defError { plain with baseAttrs := [{ addedAttr with name := "p", dflt := true }], fields := [fld "a"] } = some .valueError := by decide
-example : defError { plain with transformer := .reverse, fields := [fld "a", { (fld "b") with dflt := true }] } = some .valueError := by decide
-example : defError { plain with transformer := .mandatoryFirst, fields := [{ (fld "a") with dflt := true }, fld "b"] } = none := by decide
+example : defError { plain with transformer := Tr.ofShape .reverse, fields := [fld "a", { (fld "b") with dflt := true }] } = some .valueError := by decide
+example : defError { plain with transformer := Tr.ofShape .mandatoryFirst, fields := [{ (fld "a") with dflt := true }, fld "b"] } = none := by decide
 example : defError { plain with fields := [{ (fld "a") with deco := true, factory := true }] }
     = some .defaultAlreadySet := by decide
 example : defError { plain with api := .define, autoAttribs := .t, fields := [{ (fld "a") with annotated := true }, fld "b"] } = some .unannotated := by decide
@@ -347,6 +370,18 @@ example : defError { plain with frozen := true, fields := [{ (fld "a") with init
 example : defError { plain with api := .define, ownSetattr := true, fields := [{ (fld "a") with validator := true }] }
     = some .valueError := by decide
 example : defError { plain with api := .define, ownSetattr := true, fields := [fld "a"] } = none := by decide
+
+/-- the seeded change C15-bm1: class-level kw_only=True, a transformer hands the fields back positional -/
+def positionalAgain : Tr := { Tr.id with all := { AttrEdit.id with kwOnly := .setF } }
+example : defError { plain with kwOnly := true, transformer := positionalAgain, fields := [{ (fld "a") with dflt := true }, fld "b"] } = some .valueError := by decide
+example : defError { plain with api := .define, kwOnly := true, transformer := positionalAgain, baseAttrs := [{ addedAttr with name := "p", dflt := true }], fields := [fld "a"] } = some .valueError := by decide
+example : defError { plain with kwOnly := true, transformer := { Tr.id with first := { AttrEdit.id with kwOnly := .setF }, nFirst := 1 }, fields := [{ (fld "a") with dflt := true }, fld "b"] } = none := by decide
+/-- transformer outputs that are fine define: defaults added / removed, fields dropped / added -/
+example : defError { plain with transformer := { Tr.id with all := { AttrEdit.id with dflt := .setT } }, fields := [{ (fld "a") with dflt := true }, fld "b"] } = none := by decide
+example : defError { plain with transformer := { Tr.id with first := { AttrEdit.id with dflt := .setF }, nFirst := 1 }, fields := [{ (fld "a") with dflt := true }, fld "b"] } = none := by decide
+example : defError { plain with transformer := { Tr.id with first := { AttrEdit.id with dflt := .setT }, nFirst := 1 }, fields := [fld "a", fld "b"] } = some .valueError := by decide
+example : defError { plain with transformer := { Tr.id with add := .defaultedFirst }, fields := [fld "a"] } = some .valueError := by decide
+example : defError { plain with transformer := { Tr.id with add := .defaultedFirst }, kwOnly := true, fields := [fld "a"] } = none := by decide
 
 /-- two simultaneous contradictions: the code order decides (ValueError of hooks + own `__setattr__` before the
     TypeError of the non-bool hash), the specification accepts either type -/
